@@ -532,3 +532,70 @@ mut("c20-benign-sum-at-end", "C20", RS,
     let total = 2 + written;
     Ok(total)""",
     None, "count computed in a different order")
+
+# ---- C04 -------------------------------------------------------------------------------------------------
+ST = "src/parser/stream.rs"
+RQ = "src/parser/request.rs"
+mut("c04-stream-cantmpx-overloaded", "C04", ST,
+    """                    protocol_status: fcgi::ProtocolStatus::CantMpxConn,""",
+    """                    protocol_status: fcgi::ProtocolStatus::Overloaded,""",
+    "R4.1/stream/begin-multiplex", "wrong status in the stream parser only (sibling disagreement)")
+mut("c04-drop-id-guard", "C04", ST,
+    """            fcgi::RecordType::BeginRequest if head.request_id != req_id => {""",
+    """            fcgi::RecordType::BeginRequest => {""",
+    "R4.1/stream/", "duplicate BeginRequest for the own id answered with CantMpxConn")
+mut("c04-unknown-reply-to-id-0", "C04", ST,
+    """                let unk = fcgi::body::UnknownType { rtype }.to_record(request_id);""",
+    """                let unk = fcgi::body::UnknownType { rtype }.to_record(fcgi::FCGI_NULL_REQUEST_ID);""",
+    "R4.1/stream/unknown-type", "unknown-type echo addressed to id 0 instead of the sender's id")
+mut("c04-missing-output-count", "C04", ST,
+    """                self.output.extend(unk);
+                res.output += unk.len();""",
+    """                self.output.extend(unk);""",
+    "R4.1/stream/unknown-type", "Status.output does not count the reply")
+mut("c04-reply-on-partial-body", "C04", ST,
+    """                if raw_len < self.payload_rem.into() {
+                    payload_len - remaining
+                } else {""",
+    """                if raw_len + 8 < usize::from(self.payload_rem) {
+                    payload_len - remaining
+                } else {""",
+    "R4.2", "GetValuesResult emitted before the body is complete")
+mut("c04-abort-reply-wrong-id", "C04", RQ,
+    """                out.extend(fcgi::body::EndRequest {
+                    protocol_status: fcgi::ProtocolStatus::RequestComplete,
+                    app_status: 0,
+                }.to_record(req_id));""",
+    """                out.extend(fcgi::body::EndRequest {
+                    protocol_status: fcgi::ProtocolStatus::RequestComplete,
+                    app_status: 0,
+                }.to_record(0));""",
+    "R4.1/params/abort", "abort acknowledged for id 0")
+mut("c04-params-double-unknown-reply", "C04", RQ,
+    """                $out.extend(fcgi::body::UnknownType { rtype }.to_record(request_id));
+                // Skip record body""",
+    """                $out.extend(fcgi::body::UnknownType { rtype }.to_record(request_id));
+                if payload == 0 {
+                    $out.extend(fcgi::body::UnknownType { rtype }.to_record(request_id));
+                }
+                // Skip record body""",
+    "R4.1/", "two replies for an empty unknown record")
+mut("c04-output-truncate", "C04", ST,
+    """        if amt >= output_len {
+            self.output.clear();
+            self.output_start = 0;""",
+    """        if amt >= output_len {
+            self.output.truncate(0);
+            self.output_start = 0;""",
+    None, "clear spelled as truncate(0) in consume_output")
+mut("c04-benign-tracing-in-arms", "C04", ST,
+    """                // Skip unexpected record types
+                State::Skip
+            },
+        };""",
+    """                // Skip unexpected record types
+                tracing::debug!(rtype = ?head.rtype, "record skipped");
+                State::Skip
+            },
+        };""",
+    None, "extra logging in a dispatch arm")
